@@ -39,6 +39,7 @@ func Verify(r io.Reader, keyring openpgp.EntityList, skipDigest bool) (map[strin
 	reader := ar.NewReader(r)
 	digests := make(map[string]string)
 	sigs := make(map[string][]byte)
+	var duplicate string
 	for {
 		hdr, err := reader.Next()
 		if err == io.EOF {
@@ -58,8 +59,15 @@ func Verify(r io.Reader, keyring openpgp.EntityList, skipDigest bool) (map[strin
 			if _, err := io.Copy(io.MultiWriter(md5, sha1), reader); err != nil {
 				return nil, err
 			}
+			if _, seen := digests[hdr.Name]; seen && duplicate == "" {
+				duplicate = hdr.Name
+			}
 			digests[hdr.Name] = fmt.Sprintf("%x %x", md5.Sum(nil), sha1.Sum(nil))
 		}
+	}
+	if duplicate != "" {
+		// only one digest per name is kept: a second member of the same name would escape the comparison
+		return nil, fmt.Errorf("archive holds more than one member named %s", duplicate)
 	}
 	ret := make(map[string]*pgptools.PgpSignature, len(sigs))
 	for role, sig := range sigs {
